@@ -8,7 +8,7 @@ PATCH=$(realpath "$1"); PROPS=${2:-all}
 SCR=/tmp/bverif-seed; OUT=/tmp/bverif-seed-out
 export GOFLAGS=-mod=mod GOPROXY=off GOSUMDB=off GOTOOLCHAIN=local GOWORK=off
 git -C /repo worktree remove --force $SCR 2>/dev/null || true; rm -rf $SCR $OUT; mkdir -p $OUT
-git -C /repo worktree add -q --detach $SCR HEAD
+git -C /repo worktree add -q --detach $SCR ${REV:-HEAD}
 cp $ROOT/known_findings.txt $OUT/ 2>/dev/null || true
 (cd $SCR && git apply "$PATCH" && go build ./... ) || { echo "patch does not apply/compile"; git -C /repo worktree remove --force $SCR; exit 2; }
 [ -x $ROOT/bin/bverif ] || (cd $ROOT && ./check C19 quick >/dev/null 2>&1 || true)
